@@ -938,7 +938,7 @@ pub open spec fn clause_agg(all: bool, r: EvalRes) -> Status {
 }
 } // mod model
 pub use model::*;
-broadcast use model::group_stack;
+broadcast use model::group_stack, scope_model::axiom_value_scope_resolved;
 // ---- trait EvalContext
 pub trait EvalContext<'value, 'loc: 'value> {
     spec fn stack(&self) -> Seq<Seq<Node<'value>>>;
@@ -994,6 +994,47 @@ pub trait EvalContext<'value, 'loc: 'value> {
             final(self).stack() == old(self).stack(),;
 
 }
+// ---- raw prelude_scope.rs
+// R12: ASSUMED model of eval_context::ValueScope for Verus (which cannot unsize `&mut ValueScope` to `&mut dyn EvalContext`).
+// `ValueScope { root: X, parent: P }` is routed through verif_value_scope(X, P) and `&mut val_resolver` through
+// verif_as_ctx(&mut val_resolver). What is assumed is what the real impl does: every RecordTracer / rule_status /
+// resolve_variable call is forwarded to the parent, so the parent's record tree is the scope's record tree, and the
+// parent's semantic state is not changed through the scope. `cur_stack` is the record tree seen through the scope now,
+// `fin_stack` the (prophesied) tree the parent has when the scope dies; they coincide once the scope is resolved.
+pub mod scope_model {
+use vstd::prelude::*;
+use super::*;
+#[verifier::external_body]
+pub struct ValueScope<'value, 'eval, 'loc: 'value> {
+    root: Rc<PathAwareValue>,
+    parent: &'eval mut dyn EvalContext<'value, 'loc>,
+}
+
+impl<'value, 'eval, 'loc: 'value> ValueScope<'value, 'eval, 'loc> {
+    pub uninterp spec fn cur_stack(&self) -> Seq<Seq<Node<'value>>>;
+    pub uninterp spec fn fin_stack(&self) -> Seq<Seq<Node<'value>>>;
+}
+
+pub broadcast axiom fn axiom_value_scope_resolved<'value, 'eval, 'loc: 'value>(s: ValueScope<'value, 'eval, 'loc>)
+    ensures #[trigger] has_resolved(s) ==> s.cur_stack() == s.fin_stack();
+
+#[verifier::external_body]
+pub fn verif_value_scope<'value, 'eval, 'loc: 'value>(root: Rc<PathAwareValue>, parent: &'eval mut dyn EvalContext<'value, 'loc>) -> (s: ValueScope<'value, 'eval, 'loc>)
+    ensures
+        s.cur_stack() == old(parent).stack(),
+        s.fin_stack() == final(parent).stack(),
+        ((forall|n: Seq<char>| (final(parent)).rule_sem(n) == (old(parent)).rule_sem(n)) && (forall|q: Seq<QueryPart<'loc>>| (final(parent)).query_sem(q) == (old(parent)).query_sem(q))),
+{ unimplemented!() }
+
+#[verifier::external_body]
+pub fn verif_as_ctx<'a, 'value, 'eval, 'loc: 'value>(s: &'a mut ValueScope<'value, 'eval, 'loc>) -> (r: &'a mut dyn EvalContext<'value, 'loc>)
+    ensures
+        r.stack() == old(s).cur_stack(),
+        final(r).stack() == final(s).cur_stack(),
+        final(s).fin_stack() == old(s).fin_stack(),
+{ unimplemented!() }
+} // mod scope_model
+pub use scope_model::*;
 // ---- stub guard/src/rules/eval.rs::eval_conjunction_clauses
 #[verifier::external_body]
 pub fn eval_conjunction_clauses<'value, 'loc: 'value, T, E>(
@@ -1088,900 +1129,366 @@ pub fn eval_guard_clause__canary<'value, 'loc: 'value>(
     resolver: &mut dyn EvalContext<'value, 'loc>,
 ) -> (res: Result<Status>)
 { let r = eval_guard_clause(gc, resolver); assert(false); r }
-// ---- stub guard/src/rules/eval.rs::unary_operation
-#[verifier::external_body]
-fn unary_operation<'r, 'l: 'r, 'loc: 'l>(
-    lhs_query: &'l [QueryPart<'loc>],
-    cmp: (CmpOperator, bool),
-    inverse: bool,
-    context: String,
-    custom_message: Option<String>,
-    eval_context: &'r mut dyn EvalContext<'l, 'loc>,
-) -> (res: Result<EvaluationResult>)
-    requires
-        spec_is_unary(cmp.0),
-        lhs_query@.len() >= 1,
-    ensures
-        ((forall|n: Seq<char>| (final(eval_context)).rule_sem(n) == (old(eval_context)).rule_sem(n)) && (forall|q: Seq<QueryPart<'loc>>| (final(eval_context)).query_sem(q) == (old(eval_context)).query_sem(q))),
-        res is Ok ==> st_extends(old(eval_context).stack(), final(eval_context).stack()),
-        res is Ok ==> old(eval_context).query_sem(lhs_query@) is Some,
-        res is Ok ==> er_view(res->Ok_0) == un_sem(lhs_query@, old(eval_context).query_sem(lhs_query@)->Some_0, cmp.0, pol(cmp.1, inverse)),
-        res is Ok ==> er_wf(er_view(res->Ok_0)),
-{ unimplemented!() }
-// ---- canary canary:callee:unary_operation
-fn unary_operation__canary<'r, 'l: 'r, 'loc: 'l>(
-    lhs_query: &'l [QueryPart<'loc>],
-    cmp: (CmpOperator, bool),
-    inverse: bool,
-    context: String,
-    custom_message: Option<String>,
-    eval_context: &'r mut dyn EvalContext<'l, 'loc>,
-) -> (res: Result<EvaluationResult>)
-    requires
-        spec_is_unary(cmp.0),
-        lhs_query@.len() >= 1,
-{ let r = unary_operation(lhs_query, cmp, inverse, context, custom_message, eval_context); assert(false); r }
-// ---- fn guard/src/rules/eval.rs::binary_operation
-fn binary_operation<'value, 'loc: 'value>(
-    lhs_query: &'value [QueryPart<'loc>],
-    rhs: &[QueryResult],
-    cmp: (CmpOperator, bool),
-    context: String,
-    custom_message: Option<String>,
-    eval_context: &mut dyn EvalContext<'value, 'loc>,
-) -> (res: Result<EvaluationResult>)
-    requires
-        old(eval_context).stack().len() >= 1,
-    ensures
-        ((forall|n: Seq<char>| (final(eval_context)).rule_sem(n) == (old(eval_context)).rule_sem(n)) && (forall|q: Seq<QueryPart<'loc>>| (final(eval_context)).query_sem(q) == (old(eval_context)).query_sem(q))),
-        res is Ok ==> st_extends(old(eval_context).stack(), final(eval_context).stack()),
-        res is Ok ==> old(eval_context).query_sem(lhs_query@) is Some,
-        res is Ok ==> er_view(res->Ok_0) == bin_sem(old(eval_context).query_sem(lhs_query@)->Some_0, rhs@, cmp.0, pol(cmp.1, false)),
-        res is Ok ==> er_wf(er_view(res->Ok_0)),
-        // the last |v| records added under the current record are the per-value checks, in order, carrying the statuses
-        res is Ok ==> (er_view(res->Ok_0) matches EvalRes::Values(v) ==> ({
-            let n = st_new(old(eval_context).stack(), final(eval_context).stack());
-            n.len() >= v.len() && kid_statuses(n.subrange(n.len() - v.len(), n.len() as int)) =~= v
-        })),
-{
-    let lhs = eval_context.query(lhs_query)?;
-    let results = cmp.compare(&lhs, rhs)?;
-    match results {
-        operators::EvalResult::Skip => Ok(EvaluationResult::EmptyQueryResult(Status::SKIP)),
-        operators::EvalResult::Result(results) => {
-            let mut statues: Vec<(QueryResult, Status)> = Vec::with_capacity(lhs.len());
-            let ghost rs = results@;
-            let ghost s_q = eval_context.stack();
-            proof {
-                lemma_flat_no_skip(rs, rs.len() as int);
-            }
-
-            for each in it: results
-                invariant
-                    it.seq() == rs,
-                    it.index@ <= rs.len(),
-                    ((forall|n: Seq<char>| (eval_context).rule_sem(n) == (old(eval_context)).rule_sem(n)) && (forall|q: Seq<QueryPart<'loc>>| (eval_context).query_sem(q) == (old(eval_context)).query_sem(q))),
-                    st_extends(old(eval_context).stack(), s_q),
-                    st_extends(s_q, eval_context.stack()),
-                    er_statuses(statues@) =~= flat_statuses(rs, it.index@ as int),
-                    kid_statuses(st_new(s_q, eval_context.stack())) =~= flat_statuses(rs, it.index@ as int),
-{
-                match each {
-                    operators::ValueEvalResult::LhsUnresolved(ur) => {
-                        eval_context.start_record(&context)?;
-                        eval_context.end_record(
-                            &context,
-                            RecordType::ClauseValueCheck(ClauseCheck::Comparison(
-                                ComparisonClauseCheck {
-                                    status: Status::FAIL,
-                                    message: None,
-                                    custom_message: custom_message.clone(),
-                                    comparison: cmp,
-                                    from: QueryResult::UnResolved(ur.clone()),
-                                    to: None,
-                                },
-                            )),
-                        )?;
-                        statues.push((QueryResult::UnResolved(ur), Status::FAIL));
-                    }
-
-                    operators::ValueEvalResult::ComparisonResult(
-                        operators::ComparisonResult::RhsUnresolved(urhs, lhs),
-                    ) => {
-                        eval_context.start_record(&context)?;
-                        eval_context.end_record(
-                            &context,
-                            RecordType::ClauseValueCheck(ClauseCheck::Comparison(
-                                ComparisonClauseCheck {
-                                    status: Status::FAIL,
-                                    message: None,
-                                    custom_message: custom_message.clone(),
-                                    comparison: cmp,
-                                    from: QueryResult::Resolved(Rc::clone(&lhs)),
-                                    to: Some(QueryResult::UnResolved(urhs)),
-                                },
-                            )),
-                        )?;
-                        statues.push((QueryResult::Resolved(Rc::clone(&lhs)), Status::FAIL));
-                    }
-
-                    operators::ValueEvalResult::ComparisonResult(
-                        operators::ComparisonResult::NotComparable(nc),
-                    ) => {
-                        eval_context.start_record(&context)?;
-                        eval_context.end_record(
-                            &context,
-                            RecordType::ClauseValueCheck(ClauseCheck::Comparison(
-                                ComparisonClauseCheck {
-                                    status: Status::FAIL,
-                                    message: Some(nc.reason),
-                                    custom_message: custom_message.clone(),
-                                    comparison: cmp,
-                                    from: QueryResult::Resolved(Rc::clone(&nc.pair.lhs)),
-                                    to: Some(QueryResult::Resolved(nc.pair.rhs)),
-                                },
-                            )),
-                        )?;
-                        statues.push((QueryResult::Resolved(nc.pair.lhs), Status::FAIL));
-                    }
-
-                    operators::ValueEvalResult::ComparisonResult(
-                        operators::ComparisonResult::Success(cmp),
-                    ) => match cmp {
-                        operators::Compare::ListIn(lin) => {
-                            eval_context.start_record(&context)?;
-                            eval_context.end_record(
-                                &context,
-                                RecordType::ClauseValueCheck(ClauseCheck::Success),
-                            )?;
-                            statues.push((QueryResult::Resolved(lin.lhs), Status::PASS));
-                        }
-
-                        operators::Compare::QueryIn(qin) => {
-                                                        let ghost pre1 = er_statuses(statues@);
-                            let ghost q1 = qin.lhs@;
-for each in it: qin.lhs
-                                invariant
-                                    it.seq() == q1,
-                                    it.index@ <= q1.len(),
-                                    ((forall|n: Seq<char>| (eval_context).rule_sem(n) == (old(eval_context)).rule_sem(n)) && (forall|q: Seq<QueryPart<'loc>>| (eval_context).query_sem(q) == (old(eval_context)).query_sem(q))),
-                                    st_extends(old(eval_context).stack(), s_q),
-                                    st_extends(s_q, eval_context.stack()),
-                                    er_statuses(statues@) =~= pre1 + rep(it.index@ as nat, Status::PASS),
-                                    kid_statuses(st_new(s_q, eval_context.stack())) =~= pre1 + rep(it.index@ as nat, Status::PASS),
-{
-                                eval_context.start_record(&context)?;
-                                eval_context.end_record(
-                                    &context,
-                                    RecordType::ClauseValueCheck(ClauseCheck::Success),
-                                )?;
-                                                                let ghost sv1 = statues@;
-                                let ghost k1 = it.index@ as nat;
-statues.push((QueryResult::Resolved(each), Status::PASS));
-                                proof {
-                                    lemma_er_push(sv1, statues@.last());
-                                    assert(statues@ =~= sv1.push(statues@.last()));
-                                    lemma_const_push(pre1, k1, Status::PASS);
-                                }
-
-                            }
-                        }
-
-                        operators::Compare::Value(pair) => {
-                            eval_context.start_record(&context)?;
-                            eval_context.end_record(
-                                &context,
-                                RecordType::ClauseValueCheck(ClauseCheck::Success),
-                            )?;
-                            statues.push((QueryResult::Resolved(pair.lhs), Status::PASS));
-                        }
-
-                        operators::Compare::ValueIn(val) => {
-                            eval_context.start_record(&context)?;
-                            eval_context.end_record(
-                                &context,
-                                RecordType::ClauseValueCheck(ClauseCheck::Success),
-                            )?;
-                            statues.push((QueryResult::Resolved(val.lhs), Status::PASS));
-                        }
-                    },
-
-                    operators::ValueEvalResult::ComparisonResult(
-                        operators::ComparisonResult::Fail(cmpr),
-                    ) => match cmpr {
-                        operators::Compare::Value(pair) => {
-                            eval_context.start_record(&context)?;
-                            eval_context.end_record(
-                                &context,
-                                RecordType::ClauseValueCheck(ClauseCheck::Comparison(
-                                    ComparisonClauseCheck {
-                                        status: Status::FAIL,
-                                        message: None,
-                                        custom_message: custom_message.clone(),
-                                        comparison: cmp,
-                                        from: QueryResult::Resolved(Rc::clone(&pair.lhs)),
-                                        to: Some(QueryResult::Resolved(pair.rhs)),
-                                    },
-                                )),
-                            )?;
-                            statues
-                                .push((QueryResult::Resolved(Rc::clone(&pair.lhs)), Status::FAIL));
-                        }
-
-                        operators::Compare::ValueIn(pair) => {
-                            eval_context.start_record(&context)?;
-                            eval_context.end_record(
-                                &context,
-                                RecordType::ClauseValueCheck(ClauseCheck::InComparison(
-                                    InComparisonCheck {
-                                        status: Status::FAIL,
-                                        message: None,
-                                        custom_message: custom_message.clone(),
-                                        comparison: cmp,
-                                        from: QueryResult::Resolved(Rc::clone(&pair.lhs)),
-                                        to: vec![QueryResult::Resolved(pair.rhs)],
-                                    },
-                                )),
-                            )?;
-                            statues
-                                .push((QueryResult::Resolved(Rc::clone(&pair.lhs)), Status::FAIL));
-                        }
-
-                        operators::Compare::ListIn(lin) => {
-                            eval_context.start_record(&context)?;
-                            eval_context.end_record(
-                                &context,
-                                RecordType::ClauseValueCheck(ClauseCheck::InComparison(
-                                    InComparisonCheck {
-                                        status: Status::FAIL,
-                                        message: None,
-                                        custom_message: custom_message.clone(),
-                                        comparison: cmp,
-                                        from: QueryResult::Resolved(Rc::clone(&lin.lhs)),
-                                        to: vec![QueryResult::Resolved(lin.rhs)],
-                                    },
-                                )),
-                            )?;
-                            statues
-                                .push((QueryResult::Resolved(Rc::clone(&lin.lhs)), Status::FAIL));
-                        }
-
-                        operators::Compare::QueryIn(qin) => {
-                            let rhs = verif_payload_vec(&qin.rhs);
-
-                                                        let ghost pre2 = er_statuses(statues@);
-                            let ghost q2 = qin.diff@;
-for lhs in it: qin.diff
-                                invariant
-                                    it.seq() == q2,
-                                    it.index@ <= q2.len(),
-                                    ((forall|n: Seq<char>| (eval_context).rule_sem(n) == (old(eval_context)).rule_sem(n)) && (forall|q: Seq<QueryPart<'loc>>| (eval_context).query_sem(q) == (old(eval_context)).query_sem(q))),
-                                    st_extends(old(eval_context).stack(), s_q),
-                                    st_extends(s_q, eval_context.stack()),
-                                    er_statuses(statues@) =~= pre2 + rep(it.index@ as nat, Status::FAIL),
-                                    kid_statuses(st_new(s_q, eval_context.stack())) =~= pre2 + rep(it.index@ as nat, Status::FAIL),
-{
-                                eval_context.start_record(&context)?;
-                                eval_context.end_record(
-                                    &context,
-                                    RecordType::ClauseValueCheck(ClauseCheck::InComparison(
-                                        InComparisonCheck {
-                                            status: Status::FAIL,
-                                            message: None,
-                                            custom_message: custom_message.clone(),
-                                            comparison: cmp,
-                                            from: QueryResult::Resolved(Rc::clone(&lhs)),
-                                            to: rhs.clone(),
-                                        },
-                                    )),
-                                )?;
-                                                                let ghost sv2 = statues@;
-                                let ghost k2 = it.index@ as nat;
-statues
-                                    .push((QueryResult::Resolved(Rc::clone(&lhs)), Status::FAIL));
-                                proof {
-                                    lemma_er_push(sv2, statues@.last());
-                                    assert(statues@ =~= sv2.push(statues@.last()));
-                                    lemma_const_push(pre2, k2, Status::FAIL);
-                                }
-
-                            }
-                        }
-                    },
-                }
-            }
-            Ok(EvaluationResult::QueryValueResult(statues))
-        }
-    }
-}
-// ---- canary canary:pre:binary_operation
-fn binary_operation__canary<'value, 'loc: 'value>(
-    lhs_query: &'value [QueryPart<'loc>],
-    rhs: &[QueryResult],
-    cmp: (CmpOperator, bool),
-    context: String,
-    custom_message: Option<String>,
-    eval_context: &mut dyn EvalContext<'value, 'loc>,
-) -> (res: Result<EvaluationResult>)
-    requires
-        old(eval_context).stack().len() >= 1,
-{ assert(false); vstd::pervasive::unreached() }
-// ---- stub guard/src/rules/eval_context.rs::resolve_function
-#[verifier::external_body]
-pub fn resolve_function<'value, 'eval, 'loc: 'value>(
-    name: &FunctionName,
-    parameters: &'value [LetValue<'loc>],
-    resolver: &'eval mut dyn EvalContext<'value, 'loc>,
-) -> (res: Result<Vec<QueryResult>>)
-    ensures
-        ((forall|n: Seq<char>| (final(resolver)).rule_sem(n) == (old(resolver)).rule_sem(n)) && (forall|q: Seq<QueryPart<'loc>>| (final(resolver)).query_sem(q) == (old(resolver)).query_sem(q))),
-        res is Ok ==> st_extends(old(resolver).stack(), final(resolver).stack()),
-{ unimplemented!() }
-// ---- canary canary:callee:resolve_function
-pub fn resolve_function__canary<'value, 'eval, 'loc: 'value>(
-    name: &FunctionName,
-    parameters: &'value [LetValue<'loc>],
-    resolver: &'eval mut dyn EvalContext<'value, 'loc>,
-) -> (res: Result<Vec<QueryResult>>)
-{ let r = resolve_function(name, parameters, resolver); assert(false); r }
-// ---- fn guard/src/rules/values.rs::is_unary
-impl CmpOperator {
-    pub fn is_unary(&self) -> (res: bool)
-    ensures
-        res == spec_is_unary(*self),
-{
-        matches!(
-            self,
-            CmpOperator::Exists
-                | CmpOperator::Empty
-                | CmpOperator::IsString
-                | CmpOperator::IsBool
-                | CmpOperator::IsList
-                | CmpOperator::IsInt
-                | CmpOperator::IsMap
-                | CmpOperator::IsFloat
-                | CmpOperator::IsNull
-        )
-    }
-}
-// ---- canary canary:pre:is_unary
-impl CmpOperator {
-    pub fn is_unary__canary(&self) -> (res: bool)
-{ assert(false); vstd::pervasive::unreached() }
-}
-// ---- fn guard/src/rules/eval.rs::eval_guard_access_clause
-pub fn eval_guard_access_clause<'value, 'loc: 'value>(
-    gac: &'value GuardAccessClause<'loc>,
+// ---- fn guard/src/rules/eval.rs::eval_guard_block_clause
+pub fn eval_guard_block_clause<'value, 'loc: 'value>(
+    block_clause: &'value BlockGuardClause<'loc>,
     resolver: &mut dyn EvalContext<'value, 'loc>,
 ) -> (res: Result<Status>)
-    requires
-        gac.access_clause.query.query@.len() >= 1,
     ensures
         ((forall|n: Seq<char>| (final(resolver)).rule_sem(n) == (old(resolver)).rule_sem(n)) && (forall|q: Seq<QueryPart<'loc>>| (final(resolver)).query_sem(q) == (old(resolver)).query_sem(q))),
         clause_post(old(resolver).stack(), final(resolver).stack(), res),
-        res is Ok ==> (st_last(final(resolver).stack()).rec matches RecordType::GuardClauseBlockCheck(b) && b.status == res->Ok_0),
-        res is Ok ==> old(resolver).query_sem(gac.access_clause.query.query@) is Some,
-        res is Ok && spec_is_unary(gac.access_clause.comparator.0) ==>
-            res->Ok_0 == clause_agg(gac.access_clause.query.match_all,
-                un_sem(gac.access_clause.query.query@, old(resolver).query_sem(gac.access_clause.query.query@)->Some_0,
-                    gac.access_clause.comparator.0, pol(gac.access_clause.comparator.1, gac.negation))),
-        res is Ok && !spec_is_unary(gac.access_clause.comparator.0) ==> exists|rhs: Seq<QueryResult>|
-            res->Ok_0 == clause_agg(gac.access_clause.query.match_all,
-                #[trigger] bin_sem(old(resolver).query_sem(gac.access_clause.query.query@)->Some_0, rhs,
-                    gac.access_clause.comparator.0, pol(gac.access_clause.comparator.1, gac.negation))),
-{
-    let all = gac.access_clause.query.match_all;
-    let blk_context = verif_fmt();
-    resolver.start_record(&blk_context)?;
-
-    let statues = if gac.access_clause.comparator.0.is_unary() {
-        unary_operation(
-            &gac.access_clause.query.query,
-            gac.access_clause.comparator,
-            gac.negation,
-            verif_fmt(),
-            gac.access_clause.custom_message.clone(),
-            resolver,
-        )
-    } else {
-        let (rhs, _) = match &gac.access_clause.compare_with {
-            Some(val) => match val {
-                LetValue::Value(rhs_val) => {
-                    (vec![QueryResult::Literal(Rc::new(rhs_val.clone()))], true)
-                }
-                LetValue::AccessClause(acc_querty) => match resolver.query(&acc_querty.query) {
-                    Ok(result) => (result, false),
-                    Err(e) => {
-                        resolver.end_record(
-                            &blk_context,
-                            RecordType::GuardClauseBlockCheck(BlockCheck {
-                                status: Status::FAIL,
-                                at_least_one_matches: !all,
-                                message: Some(verif_fmt()),
-                            }),
-                        )?;
-                        return Err(e);
-                    }
-                },
-                LetValue::FunctionCall(FunctionExpr {
-                    parameters, name, ..
-                }) => match resolve_function(name, parameters, resolver) {
-                    Ok(result) => (result, false),
-                    Err(e) => {
-                        resolver.end_record(
-                            &blk_context,
-                            RecordType::GuardClauseBlockCheck(BlockCheck {
-                                status: Status::FAIL,
-                                at_least_one_matches: !all,
-                                message: Some(verif_fmt()),
-                            }),
-                        )?;
-                        return Err(e);
-                    }
-                },
-            },
-            None => {
-                resolver.end_record(
-                    &blk_context,
-                    RecordType::GuardClauseBlockCheck(BlockCheck {
-                        status: Status::FAIL,
-                        at_least_one_matches: !all,
-                        message: Some(
-verif_fmt()
-                        ),
-                    }),
-                )?;
-                return Err(Error::NotComparable(verif_fmt()));
-            }
-        };
-        binary_operation(
-            &gac.access_clause.query.query,
-            &rhs,
-            (
-                gac.access_clause.comparator.0,
-                gac.access_clause.comparator.1 != gac.negation,
-            ),
-            verif_fmt(),
-            gac.access_clause.custom_message.clone(),
-            resolver,
-        )
-    };
-
-    match statues {
-        Ok(statues) => match statues {
-            EvaluationResult::EmptyQueryResult(status) => {
-                resolver.end_record(
-                    &blk_context,
-                    RecordType::GuardClauseBlockCheck(BlockCheck {
-                        status,
-                        message: None,
-                        at_least_one_matches: all,
-                    }),
-                )?;
-                Ok(status)
-            }
-            EvaluationResult::QueryValueResult(result) => {
-                                let ghost rs_ghost = result@;
-let outcome;
- loop         invariant
-            result@ == rs_ghost,
-            er_wf(EvalRes::Values(er_statuses(rs_ghost))),
-        ensures
-            outcome == clause_agg(all, EvalRes::Values(er_statuses(rs_ghost))),
-        decreases 0int, {
-                    let mut fails = 0;
-                    let mut pass = 0;
-                    for (_value, status) in it: result
-                        invariant
-                            it.seq() == rs_ghost,
-                            er_wf(EvalRes::Values(er_statuses(rs_ghost))),
-                            it.index@ <= rs_ghost.len(),
-                            0 <= fails <= it.index@,
-                            0 <= pass <= it.index@,
-                            fails as nat == count_to(er_statuses(rs_ghost), it.index@ as int, Status::FAIL),
-                            pass as nat == count_to(er_statuses(rs_ghost), it.index@ as int, Status::PASS),
-{
-                        match status {
-                            Status::PASS => {
-                                pass += 1;
-                            }
-                            Status::FAIL => {
-                                fails += 1;
-                            }
-                            Status::SKIP => unreachable!(),
-                        }
-                    }
-                    if all {
-                        if fails > 0 {
-                            { outcome = Status::FAIL; break; }
-                        }
-                        { outcome = Status::PASS; break; }
-                    } else {
-                        if pass > 0 {
-                            { outcome = Status::PASS; break; }
-                        }
-                        { outcome = Status::FAIL; break; }
-                    }
-                }
-                resolver.end_record(
-                    &blk_context,
-                    RecordType::GuardClauseBlockCheck(BlockCheck {
-                        message: None,
-                        status: outcome,
-                        at_least_one_matches: !all,
-                    }),
-                )?;
-                Ok(outcome)
-            }
-        },
-
-        Err(e) => {
-            resolver.end_record(
-                &blk_context,
-                RecordType::GuardClauseBlockCheck(BlockCheck {
-                    status: Status::FAIL,
-                    at_least_one_matches: !all,
-                    message: Some(verif_fmt()),
-                }),
-            )?;
-
-            Err(e)
-        }
-    }
-}
-// ---- canary canary:pre:eval_guard_access_clause
-pub fn eval_guard_access_clause__canary<'value, 'loc: 'value>(
-    gac: &'value GuardAccessClause<'loc>,
-    resolver: &mut dyn EvalContext<'value, 'loc>,
-) -> (res: Result<Status>)
-    requires
-        gac.access_clause.query.query@.len() >= 1,
-{ assert(false); vstd::pervasive::unreached() }
-// ---- fn guard/src/rules/eval.rs::eval_guard_access_clause (assumed elsewhere as clause_stub.spec)
-pub fn eval_guard_access_clause__as_assumed_0<'value, 'loc: 'value>(
-    gac: &'value GuardAccessClause<'loc>,
-    resolver: &mut dyn EvalContext<'value, 'loc>,
-) -> (res: Result<Status>)
-    requires
-        gac.access_clause.query.query@.len() >= 1,
-    ensures
-        ((forall|n: Seq<char>| (final(resolver)).rule_sem(n) == (old(resolver)).rule_sem(n)) && (forall|q: Seq<QueryPart<'loc>>| (final(resolver)).query_sem(q) == (old(resolver)).query_sem(q))),
-        clause_post(old(resolver).stack(), final(resolver).stack(), res),
-{ let r = eval_guard_access_clause(gac, resolver); r }
-// ---- fn guard/src/rules/eval.rs::eval_guard_named_clause
-pub fn eval_guard_named_clause<'value, 'loc: 'value>(
-    gnc: &'value GuardNamedRuleClause<'loc>,
-    resolver: &mut dyn EvalContext<'value, 'loc>,
-) -> (res: Result<Status>)
-    ensures
-        ((forall|n: Seq<char>| (final(resolver)).rule_sem(n) == (old(resolver)).rule_sem(n)) && (forall|q: Seq<QueryPart<'loc>>| (final(resolver)).query_sem(q) == (old(resolver)).query_sem(q))),
-        res is Ok ==> st_one_more(old(resolver).stack(), final(resolver).stack()),
-        res is Ok ==> rec_status(st_last(final(resolver).stack()).rec) == res->Ok_0,
-        res is Ok ==> st_last(final(resolver).stack()).rec is ClauseValueCheck,
-        res is Ok ==> old(resolver).rule_sem(gnc.dependent_rule@) is Some,
-        res is Ok ==> res->Ok_0 == spec_named(old(resolver).rule_sem(gnc.dependent_rule@)->Some_0, gnc.negation),
-        res is Ok ==> res->Ok_0 != Status::SKIP,
-        clause_post(old(resolver).stack(), final(resolver).stack(), res),
+        res is Ok ==> (st_last(final(resolver).stack()).rec matches RecordType::BlockGuardCheck(b) && b.status == res->Ok_0),
+        res is Ok ==> old(resolver).query_sem(block_clause.query.query@) is Some,
+        res is Ok && old(resolver).query_sem(block_clause.query.query@)->Some_0.len() == 0 ==>
+            res->Ok_0 == if block_clause.not_empty { Status::FAIL } else { Status::SKIP },
 {
     let context = verif_fmt();
+    let match_all = block_clause.query.match_all;
     resolver.start_record(&context)?;
-
-    match resolver.rule_status(&gnc.dependent_rule) {
-        Ok(status) => {
-            let status = match status {
-                Status::PASS => {
-                    if gnc.negation {
-                        Status::FAIL
-                    } else {
-                        Status::PASS
-                    }
-                }
-                _ => {
-                    if gnc.negation {
-                        Status::PASS
-                    } else {
-                        Status::FAIL
-                    }
-                }
-            };
-            match status {
-                Status::PASS => {
-                    resolver
-                        .end_record(&context, RecordType::ClauseValueCheck(ClauseCheck::Success))?;
-                }
-                Status::FAIL => {
-                    resolver.end_record(
-                        &context,
-                        RecordType::ClauseValueCheck(ClauseCheck::DependentRule(
-                            MissingValueCheck {
-                                rule: &gnc.dependent_rule,
-                                status: Status::FAIL,
-                                message: None,
-                                custom_message: gnc.custom_message.clone(),
-                            },
-                        )),
-                    )?;
-                }
-
-                _ => unreachable!(),
-            }
-            Ok(status)
-        }
-
+    let block_values = match resolver.query(&block_clause.query.query) {
+        Ok(values) => values,
         Err(e) => {
             resolver.end_record(
                 &context,
-                RecordType::ClauseValueCheck(ClauseCheck::DependentRule(MissingValueCheck {
-                    rule: &gnc.dependent_rule,
+                RecordType::BlockGuardCheck(BlockCheck {
                     status: Status::FAIL,
-                    message: Some(verif_fmt()),
-                    custom_message: gnc.custom_message.clone(),
-                })),
-            )?;
-            Err(e)
-        }
-    }
-}
-// ---- canary canary:pre:eval_guard_named_clause
-pub fn eval_guard_named_clause__canary<'value, 'loc: 'value>(
-    gnc: &'value GuardNamedRuleClause<'loc>,
-    resolver: &mut dyn EvalContext<'value, 'loc>,
-) -> (res: Result<Status>)
-{ assert(false); vstd::pervasive::unreached() }
-// ---- fn guard/src/rules/eval.rs::eval_guard_named_clause (assumed elsewhere as clause_stub.spec)
-pub fn eval_guard_named_clause__as_assumed_0<'value, 'loc: 'value>(
-    gnc: &'value GuardNamedRuleClause<'loc>,
-    resolver: &mut dyn EvalContext<'value, 'loc>,
-) -> (res: Result<Status>)
-    ensures
-        ((forall|n: Seq<char>| (final(resolver)).rule_sem(n) == (old(resolver)).rule_sem(n)) && (forall|q: Seq<QueryPart<'loc>>| (final(resolver)).query_sem(q) == (old(resolver)).query_sem(q))),
-        clause_post(old(resolver).stack(), final(resolver).stack(), res),
-{ let r = eval_guard_named_clause(gnc, resolver); r }
-// ---- fn guard/src/rules/eval.rs::eval_when_condition_block
-fn eval_when_condition_block<'value, 'loc: 'value>(
-    context: String,
-    conditions: &'value WhenConditions<'loc>,
-    block: &'value Block<'loc, GuardClause<'loc>>,
-    resolver: &mut dyn EvalContext<'value, 'loc>,
-) -> (res: Result<Status>)
-    ensures
-        ((forall|n: Seq<char>| (final(resolver)).rule_sem(n) == (old(resolver)).rule_sem(n)) && (forall|q: Seq<QueryPart<'loc>>| (final(resolver)).query_sem(q) == (old(resolver)).query_sem(q))),
-        clause_post(old(resolver).stack(), final(resolver).stack(), res),
-        res is Ok ==> (st_last(final(resolver).stack()).rec matches RecordType::WhenCheck(b) && b.status == res->Ok_0),
-        res is Ok ==> guarded_explained(true, res->Ok_0, st_last(final(resolver).stack()).kids),
-        res is Ok ==> (st_last(final(resolver).stack()).kids[0].rec matches RecordType::WhenCondition(c)
-            && c == spec_all(kid_statuses(st_last(final(resolver).stack()).kids[0].kids))),
-{
-    resolver.start_record(&context)?;
-    let when_context = verif_fmt();
-    resolver.start_record(&when_context)?;
-    let block = match eval_conjunction_clauses(conditions, resolver, eval_when_clause) {
-        Ok(status) => {
-            if status != Status::PASS {
-                resolver.end_record(&when_context, RecordType::WhenCondition(status))?;
-                resolver.end_record(
-                    &context,
-                    RecordType::WhenCheck(BlockCheck {
-                        status: Status::SKIP,
-                        at_least_one_matches: false,
-                        message: None,
-                    }),
-                )?;
-                return Ok(Status::SKIP);
-            }
-            resolver.end_record(&when_context, RecordType::WhenCondition(Status::PASS))?;
-            block
-        }
-
-        Err(e) => {
-            resolver.end_record(&when_context, RecordType::WhenCondition(Status::FAIL))?;
-            resolver.end_record(
-                &context,
-                RecordType::WhenCheck(BlockCheck {
-                    status: Status::FAIL,
-                    message: Some(verif_fmt()),
-                    at_least_one_matches: false,
+                    at_least_one_matches: !match_all,
+                    message: None,
                 }),
             )?;
             return Err(e);
         }
     };
+    if block_values.is_empty() {
+        let status = if block_clause.not_empty {
+            Status::FAIL
+        } else {
+            Status::SKIP
+        };
+        resolver.end_record(
+            &context,
+            RecordType::BlockGuardCheck(BlockCheck {
+                status,
+                at_least_one_matches: !match_all,
+                message: None,
+            }),
+        )?;
+        return Ok(status);
+    }
+    let mut fails = 0;
+    let mut passes = 0;
+    let ghost mut vs: Seq<Status> = Seq::empty();
+    let ghost s1 = resolver.stack();
+    let ghost bv = block_values@;
 
-    Ok(
-        match eval_general_block_clause(block, resolver, eval_guard_clause) {
-            Ok(status) => {
-                resolver.end_record(
-                    &context,
-                    RecordType::WhenCheck(BlockCheck {
-                        status,
-                        message: None,
-                        at_least_one_matches: false,
-                    }),
-                )?;
-                status
-            }
+    for each in it: block_values
+        invariant
+            it.seq() == bv,
+            bv.len() < 0x7fff_ffff,
+            it.index@ <= bv.len(),
+            ((forall|n: Seq<char>| (resolver).rule_sem(n) == (old(resolver)).rule_sem(n)) && (forall|q: Seq<QueryPart<'loc>>| (resolver).query_sem(q) == (old(resolver)).query_sem(q))),
+            st_extends(old(resolver).stack().push(Seq::empty()), s1),
+            st_extends(s1, resolver.stack()),
+            vs.len() == it.index@,
+            0 <= fails <= it.index@,
+            0 <= passes <= it.index@,
+            fails as nat == count(vs, Status::FAIL),
+            passes as nat == count(vs, Status::PASS),
+{
+        match each {
+            QueryResult::UnResolved(ur) => {
+                fails += 1;
+                let guard_cxt = verif_fmt();
+                proof {
+                    lemma_count_push(vs, Status::FAIL, Status::FAIL);
+                    lemma_count_push(vs, Status::FAIL, Status::PASS);
+                    vs = vs.push(Status::FAIL);
+                }
 
-            Err(e) => {
+                resolver.start_record(&guard_cxt)?;
                 resolver.end_record(
-                    &context,
-                    RecordType::WhenCheck(BlockCheck {
-                        status: Status::FAIL,
+                    &guard_cxt,
+                    RecordType::ClauseValueCheck(ClauseCheck::MissingBlockValue(ValueCheck {
                         message: Some(verif_fmt()),
-                        at_least_one_matches: false,
-                    }),
+                        status: Status::FAIL,
+                        custom_message: None,
+                        from: QueryResult::UnResolved(ur),
+                    })),
                 )?;
-                return Err(e);
             }
-        },
-    )
+
+            QueryResult::Literal(rv) | QueryResult::Resolved(rv) => {
+                let mut val_resolver = verif_value_scope(rv, resolver);
+                match eval_general_block_clause(
+                    &block_clause.block,
+                    verif_as_ctx(&mut val_resolver),
+                    eval_guard_clause,
+                ) {
+                    Ok(status) => match status {
+                        Status::PASS => {
+                            passes += 1;
+                            proof {
+                                lemma_count_push(vs, Status::PASS, Status::FAIL);
+                                lemma_count_push(vs, Status::PASS, Status::PASS);
+                                vs = vs.push(Status::PASS);
+                            }
+
+                        }
+                        Status::FAIL => {
+                            fails += 1;
+                            proof {
+                                lemma_count_push(vs, Status::FAIL, Status::FAIL);
+                                lemma_count_push(vs, Status::FAIL, Status::PASS);
+                                vs = vs.push(Status::FAIL);
+                            }
+
+                        }
+                        Status::SKIP => {
+                            proof {
+                                lemma_count_push(vs, Status::SKIP, Status::FAIL);
+                                lemma_count_push(vs, Status::SKIP, Status::PASS);
+                                vs = vs.push(Status::SKIP);
+                            }
+                        }
+                    },
+
+                    Err(e) => {
+                        resolver.end_record(
+                            &context,
+                            RecordType::BlockGuardCheck(BlockCheck {
+                                status: Status::FAIL,
+                                at_least_one_matches: !match_all,
+                                message: Some(verif_fmt()),
+                            }),
+                        )?;
+                        return Err(e);
+                    }
+                }
+            }
+        }
+    }
+
+    let status = if match_all {
+        if fails > 0 {
+            Status::FAIL
+        } else if passes > 0 {
+            Status::PASS
+        } else {
+            Status::SKIP
+        }
+    } else if passes > 0 {
+        Status::PASS
+    } else if fails > 0 {
+        Status::FAIL
+    } else {
+        Status::SKIP
+    };
+        proof {
+        lemma_count_has(vs, Status::FAIL);
+        lemma_count_has(vs, Status::PASS);
+        // the per-value aggregation of the statement, as a checked obligation
+        assert(status == spec_block(match_all, vs));
+    }
+resolver.end_record(
+        &context,
+        RecordType::BlockGuardCheck(BlockCheck {
+            status,
+            at_least_one_matches: !match_all,
+            message: None,
+        }),
+    )?;
+    Ok(status)
 }
-// ---- canary canary:pre:eval_when_condition_block
-fn eval_when_condition_block__canary<'value, 'loc: 'value>(
-    context: String,
-    conditions: &'value WhenConditions<'loc>,
-    block: &'value Block<'loc, GuardClause<'loc>>,
+// ---- canary canary:pre:eval_guard_block_clause
+pub fn eval_guard_block_clause__canary<'value, 'loc: 'value>(
+    block_clause: &'value BlockGuardClause<'loc>,
     resolver: &mut dyn EvalContext<'value, 'loc>,
 ) -> (res: Result<Status>)
 { assert(false); vstd::pervasive::unreached() }
-// ---- fn guard/src/rules/eval.rs::eval_when_condition_block (assumed elsewhere as clause_stub.spec)
-fn eval_when_condition_block__as_assumed_0<'value, 'loc: 'value>(
-    context: String,
-    conditions: &'value WhenConditions<'loc>,
-    block: &'value Block<'loc, GuardClause<'loc>>,
+// ---- fn guard/src/rules/eval.rs::eval_guard_block_clause (assumed elsewhere as clause_stub.spec)
+pub fn eval_guard_block_clause__as_assumed_0<'value, 'loc: 'value>(
+    block_clause: &'value BlockGuardClause<'loc>,
     resolver: &mut dyn EvalContext<'value, 'loc>,
 ) -> (res: Result<Status>)
     ensures
         ((forall|n: Seq<char>| (final(resolver)).rule_sem(n) == (old(resolver)).rule_sem(n)) && (forall|q: Seq<QueryPart<'loc>>| (final(resolver)).query_sem(q) == (old(resolver)).query_sem(q))),
         clause_post(old(resolver).stack(), final(resolver).stack(), res),
-{ let r = eval_when_condition_block(context, conditions, block, resolver); r }
-// ---- fn guard/src/rules/eval.rs::eval_rule
-pub fn eval_rule<'value, 'loc: 'value>(
-    rule: &'value Rule<'loc>,
+{ let r = eval_guard_block_clause(block_clause, resolver); r }
+// ---- fn guard/src/rules/eval.rs::eval_type_block_clause
+pub fn eval_type_block_clause<'value, 'loc: 'value>(
+    type_block: &'value TypeBlock<'loc>,
     resolver: &mut dyn EvalContext<'value, 'loc>,
 ) -> (res: Result<Status>)
     ensures
         ((forall|n: Seq<char>| (final(resolver)).rule_sem(n) == (old(resolver)).rule_sem(n)) && (forall|q: Seq<QueryPart<'loc>>| (final(resolver)).query_sem(q) == (old(resolver)).query_sem(q))),
         clause_post(old(resolver).stack(), final(resolver).stack(), res),
-        res is Ok ==> (st_last(final(resolver).stack()).rec matches RecordType::RuleCheck(ns) && ns.status == res->Ok_0 && ns.name@ == rule.rule_name@),
-        res is Ok ==> guarded_explained(rule.conditions is Some, res->Ok_0, st_last(final(resolver).stack()).kids),
-        res is Ok && rule.conditions is Some ==> (st_last(final(resolver).stack()).kids[0].rec matches RecordType::RuleCondition(c)
-            && c == spec_all(kid_statuses(st_last(final(resolver).stack()).kids[0].kids))),
+        res is Ok ==> (st_last(final(resolver).stack()).rec matches RecordType::TypeCheck(t) && t.block.status == res->Ok_0),
+        res is Ok && type_block.conditions is Some ==> st_last(final(resolver).stack()).kids.len() >= 1,
+        res is Ok && type_block.conditions is Some ==> st_last(final(resolver).stack()).kids[0].rec is TypeCondition,
+        res is Ok && type_block.conditions is Some ==>
+            rec_status(st_last(final(resolver).stack()).kids[0].rec) == spec_all(kid_statuses(st_last(final(resolver).stack()).kids[0].kids)),
+        res is Ok && type_block.conditions is Some && rec_status(st_last(final(resolver).stack()).kids[0].rec) != Status::PASS ==>
+            res->Ok_0 == Status::SKIP && st_last(final(resolver).stack()).kids.len() == 1,
 {
     let context = verif_fmt();
     resolver.start_record(&context)?;
-    let block = if let Some(conditions) = &rule.conditions {
+    let block = if let Some(conditions) = &type_block.conditions {
         let when_context = verif_fmt();
         resolver.start_record(&when_context)?;
         match eval_conjunction_clauses(conditions, resolver, eval_when_clause) {
             Ok(status) => {
                 if status != Status::PASS {
-                    resolver.end_record(&when_context, RecordType::RuleCondition(status))?;
+                    resolver.end_record(&when_context, RecordType::TypeCondition(status))?;
                     resolver.end_record(
                         &context,
-                        RecordType::RuleCheck(NamedStatus {
-                            status: Status::SKIP,
-                            name: &rule.rule_name,
-                            ..Default::default()
+                        RecordType::TypeCheck(TypeBlockCheck {
+                            type_name: &type_block.type_name,
+                            block: BlockCheck {
+                                status: Status::SKIP,
+                                at_least_one_matches: false,
+                                message: None,
+                            },
                         }),
                     )?;
                     return Ok(Status::SKIP);
                 }
-                resolver.end_record(&when_context, RecordType::RuleCondition(Status::PASS))?;
-                &rule.block
+                resolver.end_record(&when_context, RecordType::TypeCondition(Status::PASS))?;
+                &type_block.block
             }
 
             Err(e) => {
-                resolver.end_record(&when_context, RecordType::RuleCondition(Status::FAIL))?;
+                resolver.end_record(&when_context, RecordType::TypeCondition(Status::FAIL))?;
                 resolver.end_record(
                     &context,
-                    RecordType::RuleCheck(NamedStatus {
-                        status: Status::FAIL,
-                        name: &rule.rule_name,
-                        ..Default::default()
+                    RecordType::TypeCheck(TypeBlockCheck {
+                        type_name: &type_block.type_name,
+                        block: BlockCheck {
+                            status: Status::FAIL,
+                            message: Some(verif_fmt()),
+                            at_least_one_matches: false,
+                        },
                     }),
                 )?;
                 return Err(e);
             }
         }
     } else {
-        &rule.block
+        &type_block.block
     };
 
-    match eval_general_block_clause(block, resolver, eval_rule_clause) {
-        Ok(status) => {
-            resolver.end_record(
-                &context,
-                RecordType::RuleCheck(NamedStatus {
-                    status,
-                    name: &rule.rule_name,
-                    ..Default::default()
-                }),
-            )?;
-            Ok(status)
-        }
-
+    let values = match resolver.query(&type_block.query) {
+        Ok(values) => values,
         Err(e) => {
             resolver.end_record(
                 &context,
-                RecordType::RuleCheck(NamedStatus {
-                    status: Status::FAIL,
-                    name: &rule.rule_name,
-                    ..Default::default()
+                RecordType::TypeCheck(TypeBlockCheck {
+                    type_name: &type_block.type_name,
+                    block: BlockCheck {
+                        status: Status::FAIL,
+                        at_least_one_matches: false,
+                        message: None,
+                    },
                 }),
             )?;
-            Err(e)
+            return Err(e);
         }
+    };
+    if values.is_empty() {
+        resolver.end_record(
+            &context,
+            RecordType::TypeCheck(TypeBlockCheck {
+                type_name: &type_block.type_name,
+                block: BlockCheck {
+                    status: Status::SKIP,
+                    at_least_one_matches: false,
+                    message: None,
+                },
+            }),
+        )?;
+        return Ok(Status::SKIP);
     }
-}
-// ---- canary canary:pre:eval_rule
-pub fn eval_rule__canary<'value, 'loc: 'value>(
-    rule: &'value Rule<'loc>,
-    resolver: &mut dyn EvalContext<'value, 'loc>,
-) -> (res: Result<Status>)
-{ assert(false); vstd::pervasive::unreached() }
-// ---- fn guard/src/rules/eval.rs::eval_rules_file
-pub fn eval_rules_file<'value, 'loc: 'value>(
-    rule: &'value RulesFile<'loc>,
-    resolver: &mut dyn EvalContext<'value, 'loc>,
-    data_file_name: Option<&'value str>,
-) -> (res: Result<Status>)
-    requires
-        rule.guard_rules.len() < 0x7fff_ffff,
-    ensures
-        ((forall|n: Seq<char>| (final(resolver)).rule_sem(n) == (old(resolver)).rule_sem(n)) && (forall|q: Seq<QueryPart<'loc>>| (final(resolver)).query_sem(q) == (old(resolver)).query_sem(q))),
-        clause_post(old(resolver).stack(), final(resolver).stack(), res),
-        res is Ok ==> (st_last(final(resolver).stack()).rec matches RecordType::FileCheck(ns) && ns.status == res->Ok_0),
-        res is Ok ==> res->Ok_0 == spec_all(kid_statuses(st_last(final(resolver).stack()).kids)),
-        res is Ok ==> st_last(final(resolver).stack()).kids.len() == rule.guard_rules.len(),
-        res is Ok ==> forall|i: int| 0 <= i < rule.guard_rules.len() ==>
-            (#[trigger] st_last(final(resolver).stack()).kids[i].rec matches RecordType::RuleCheck(ns) && ns.name@ == rule.guard_rules[i].rule_name@),
-{
-    let ghost s_entry = resolver.stack();
 
-    let context = verif_fmt();
-    resolver.start_record(&context)?;
     let mut fails = 0;
     let mut passes = 0;
-    for each_rule in it: &rule.guard_rules
-    invariant
-        ((forall|n: Seq<char>| (resolver).rule_sem(n) == (old(resolver)).rule_sem(n)) && (forall|q: Seq<QueryPart<'loc>>| (resolver).query_sem(q) == (old(resolver)).query_sem(q))),
-        rule.guard_rules.len() < 0x7fff_ffff,
-        s_entry == old(resolver).stack(),
-        st_extends(s_entry.push(Seq::empty()), resolver.stack()),
-        resolver.stack().last().len() == it.index@,
-        0 <= fails <= it.index@,
-        0 <= passes <= it.index@,
-        fails as nat == count(kid_statuses(resolver.stack().last()), Status::FAIL),
-        passes as nat == count(kid_statuses(resolver.stack().last()), Status::PASS),
-        forall|i: int| 0 <= i < it.index@ ==>
-            (#[trigger] resolver.stack().last()[i].rec matches RecordType::RuleCheck(ns) && ns.name@ == rule.guard_rules[i].rule_name@),
-{
-        match eval_rule(each_rule, resolver) {
-            Ok(status) => match status {
-                Status::PASS => {
-                    passes += 1;
-                }
-                Status::FAIL => {
-                    fails += 1;
-                }
-                Status::SKIP => {}
-            },
+    let ghost mut vs: Seq<Status> = Seq::empty();
+    let ghost s2 = resolver.stack();
+    let ghost vals = values@;
 
-            Err(e) => {
+    for each in it: values.iter()
+        invariant
+            vals == values@,
+            vals.len() < 0x7fff_ffff,
+            ((forall|n: Seq<char>| (resolver).rule_sem(n) == (old(resolver)).rule_sem(n)) && (forall|q: Seq<QueryPart<'loc>>| (resolver).query_sem(q) == (old(resolver)).query_sem(q))),
+            st_extends(old(resolver).stack().push(Seq::empty()), s2),
+            st_extends(s2, resolver.stack()),
+            vs.len() == it.index@,
+            0 <= fails <= it.index@,
+            0 <= passes <= it.index@,
+            fails as nat == count(vs, Status::FAIL),
+            passes as nat == count(vs, Status::PASS),
+{
+        match each {
+            QueryResult::Literal(rv) | QueryResult::Resolved(rv) => {
+                let block_context = verif_fmt();
+                resolver.start_record(&block_context)?;
+
+                let mut val_resolver = verif_value_scope(Rc::clone(rv), resolver);
+
+                match eval_general_block_clause(block, verif_as_ctx(&mut val_resolver), eval_guard_clause) {
+                    Ok(status) => {
+                        match status {
+                            Status::PASS => {
+                                passes += 1;
+                            }
+                            Status::FAIL => {
+                                fails += 1;
+                            }
+                            Status::SKIP => {}
+                        }
+                                                proof {
+                            lemma_count_push(vs, status, Status::FAIL);
+                            lemma_count_push(vs, status, Status::PASS);
+                            vs = vs.push(status);
+                        }
+resolver.end_record(&block_context, RecordType::TypeBlock(status))?;
+                    }
+
+                    Err(e) => {
+                        resolver.end_record(&block_context, RecordType::TypeBlock(Status::FAIL))?;
+                        resolver.end_record(
+                            &context,
+                            RecordType::TypeCheck(TypeBlockCheck {
+                                type_name: &type_block.type_name,
+                                block: BlockCheck {
+                                    status: Status::FAIL,
+                                    message: Some(verif_fmt()),
+                                    at_least_one_matches: false,
+                                },
+                            }),
+                        )?;
+                        return Err(e);
+                    }
+                }
+            }
+            QueryResult::UnResolved(ur) => {
                 resolver.end_record(
                     &context,
-                    RecordType::RuleCheck(NamedStatus {
-                        status: Status::FAIL,
-                        name: &each_rule.rule_name,
-                        ..Default::default()
+                    RecordType::TypeCheck(TypeBlockCheck {
+                        type_name: &type_block.type_name,
+                        block: BlockCheck {
+                            at_least_one_matches: false,
+                            status: Status::FAIL,
+                            message: ur.reason.clone(),
+                        },
                     }),
                 )?;
-                return Err(e);
+
+                return Err(Error::MissingValue(verif_fmt()));
             }
         }
     }
 
-    let overall = if fails > 0 {
+    let status = if fails > 0 {
         Status::FAIL
     } else if passes > 0 {
         Status::PASS
@@ -1989,25 +1496,39 @@ pub fn eval_rules_file<'value, 'loc: 'value>(
         Status::SKIP
     };
 
-    resolver.end_record(
+        proof {
+        lemma_count_has(vs, Status::FAIL);
+        lemma_count_has(vs, Status::PASS);
+        // per-resource aggregation, as a checked obligation
+        assert(status == spec_all(vs));
+    }
+resolver.end_record(
         &context,
-        RecordType::FileCheck(NamedStatus {
-            status: overall,
-            name: data_file_name.unwrap_or_default(),
-            ..Default::default()
+        RecordType::TypeCheck(TypeBlockCheck {
+            type_name: &type_block.type_name,
+            block: BlockCheck {
+                status,
+                message: None,
+                at_least_one_matches: false,
+            },
         }),
     )?;
-
-    Ok(overall)
+    Ok(status)
 }
-// ---- canary canary:pre:eval_rules_file
-pub fn eval_rules_file__canary<'value, 'loc: 'value>(
-    rule: &'value RulesFile<'loc>,
+// ---- canary canary:pre:eval_type_block_clause
+pub fn eval_type_block_clause__canary<'value, 'loc: 'value>(
+    type_block: &'value TypeBlock<'loc>,
     resolver: &mut dyn EvalContext<'value, 'loc>,
-    data_file_name: Option<&'value str>,
 ) -> (res: Result<Status>)
-    requires
-        rule.guard_rules.len() < 0x7fff_ffff,
 { assert(false); vstd::pervasive::unreached() }
+// ---- fn guard/src/rules/eval.rs::eval_type_block_clause (assumed elsewhere as clause_stub.spec)
+pub fn eval_type_block_clause__as_assumed_0<'value, 'loc: 'value>(
+    type_block: &'value TypeBlock<'loc>,
+    resolver: &mut dyn EvalContext<'value, 'loc>,
+) -> (res: Result<Status>)
+    ensures
+        ((forall|n: Seq<char>| (final(resolver)).rule_sem(n) == (old(resolver)).rule_sem(n)) && (forall|q: Seq<QueryPart<'loc>>| (final(resolver)).query_sem(q) == (old(resolver)).query_sem(q))),
+        clause_post(old(resolver).stack(), final(resolver).stack(), res),
+{ let r = eval_type_block_clause(type_block, resolver); r }
 } // verus!
 fn main() {}
